@@ -175,13 +175,88 @@ Definition d_roundtrip (fwd : bool) (args : list val) (obs : val) : verdict :=
   | _, _ => bad_case
   end.
 
-Definition table_C12 : table :=
+(* ---- call histories. The property quantifies over every history of calls: a package-level memo keyed on a subset of the arguments, a
+   value stored before it was validated, a scratch buffer that is not reset ... only show on a SEQUENCE of related calls. A case of the
+   entry "CallSequence" carries the whole sequence in its arguments: steps = [[name; arg ...] ...] with name one of the four plain entries;
+   the invoker issues a fixed, unrelated priming call of each function (so a replay in a fresh process and every shrinker candidate see
+   the same initial library state), then the steps back to back, and returns the list of their observations (a panicking step is
+   recorded as VPanic in its place). The models are Coq functions, hence pure: each step is judged exactly like a standalone case of its
+   entry (step_verdict = the entry of plain_table), whatever came before it — theorems sequence_history_independent, sequence_passes_iff. *)
+Definition plain_table : table :=
   [("ConvertZToMinMaxAltitudekey", fun _ => d_conv true);
    ("ConvertAltitudekeyToMinMaxZ", fun _ => d_conv false);
    ("convertZToMinAltitudekey", fun _ => d_minkey);
-   ("validateIndexExists", fun _ => d_validate);
-   ("RoundTripZ", fun _ => d_roundtrip true);
-   ("RoundTripK", fun _ => d_roundtrip false)].
+   ("validateIndexExists", fun _ => d_validate)].
+Definition no_oracle : oracle_t := fun _ _ => VNil.
+Definition is_bad (v : verdict) : bool := String.eqb (v_class v) "bad-case".
+Definition step_verdict (st o : val) : verdict :=
+  match st with
+  | VL (VS fn :: args) =>
+      let v := run_table plain_table no_oracle fn args o in
+      (* a panic the int64 model does not predict is a failure of that step, not a malformed case *)
+      match o with VPanic => if is_bad v then mkv false false "-" VNil else v | _ => v end
+  | _ => bad_case
+  end.
+Definition step_verdicts (h : list (val * val)) : list verdict := map (fun so => step_verdict (fst so) (snd so)) h.
+Definition seq_verdict (vs : list verdict) : verdict :=
+  if existsb is_bad vs then bad_case
+  else
+    let corr := forallb v_corr vs in let prop := forallb v_prop vs in
+    (* the finding class is granted only if every failing step is itself in the class (and no step disagrees with the int64 model) *)
+    let excused := forallb (fun v => v_prop v || String.eqb (v_class v) "int64_overflow") vs in
+    mkv corr prop (if corr && negb prop && excused then "int64_overflow" else "-") (VL (map v_model vs)).
+Definition d_sequence (args : list val) (obs : val) : verdict :=
+  match args, obs with
+  | [VL steps], VL os => if Nat.eqb (length steps) (length os) then seq_verdict (step_verdicts (combine steps os)) else bad_case
+  | _, _ => bad_case
+  end.
+
+Definition table_C12 : table :=
+  (plain_table ++
+   [("RoundTripZ", fun _ => d_roundtrip true);
+    ("RoundTripK", fun _ => d_roundtrip false);
+    ("CallSequence", fun _ => d_sequence)])%list.
+
+(* a step is judged by the very dispatch entry that judges a standalone case of the same function *)
+Lemma step_verdict_standalone fn args o : In fn ["ConvertZToMinMaxAltitudekey"; "ConvertAltitudekeyToMinMaxZ"; "convertZToMinAltitudekey"; "validateIndexExists"] ->
+  o <> VPanic -> step_verdict (VL (VS fn :: args)) o = run_table table_C12 no_oracle fn args o.
+Proof.
+  intros Hin Ho. unfold step_verdict.
+  assert (E : run_table plain_table no_oracle fn args o = run_table table_C12 no_oracle fn args o).
+  { cbn in Hin. destruct Hin as [<-|[<-|[<-|[<-|[]]]]]; reflexivity. }
+  rewrite E. destruct o; try reflexivity. congruence.
+Qed.
+(* HISTORY INDEPENDENCE: the verdict of a step after any history h is the verdict of the same step after any other history h' —
+   it is step_verdict of the step's own arguments and observation *)
+Theorem sequence_history_independent (h h' : list (val * val)) st o :
+  nth (length h) (step_verdicts (h ++ [(st, o)])) bad_case = step_verdict st o /\
+  nth (length h) (step_verdicts (h ++ [(st, o)])) bad_case = nth (length h') (step_verdicts (h' ++ [(st, o)])) bad_case.
+Proof.
+  assert (N : forall k : list (val * val), nth (length k) (step_verdicts (k ++ [(st, o)])) bad_case = step_verdict st o).
+  { intros k. unfold step_verdicts. rewrite map_app, app_nth2 by (rewrite map_length; apply le_n). rewrite map_length, Nat.sub_diag. reflexivity. }
+  split; [apply N|]. now rewrite !N.
+Qed.
+(* a sequence case without malformed steps passes (corr and prop) exactly when each of its steps passes as a standalone case;
+   with a malformed step (wrong shape of a step or of its observation) the whole case is the malformed-case verdict *)
+Theorem sequence_passes_iff (h : list (val * val)) : existsb is_bad (step_verdicts h) = false ->
+  ((v_corr (seq_verdict (step_verdicts h)) = true /\ v_prop (seq_verdict (step_verdicts h)) = true) <->
+   Forall (fun so => v_corr (step_verdict (fst so) (snd so)) = true /\ v_prop (step_verdict (fst so) (snd so)) = true) h).
+Proof.
+  intros B. unfold seq_verdict. rewrite B. unfold step_verdicts, mkv. cbn [v_corr v_prop]. rewrite Forall_forall, !forallb_forall. split.
+  - intros [C P] so Hso. split; [apply C|apply P]; apply in_map_iff; exists so; auto.
+  - intros H. split; intros v Hv; apply in_map_iff in Hv; destruct Hv as (so & <- & Hso); apply (H so Hso).
+Qed.
+Lemma sequence_malformed (h : list (val * val)) : existsb is_bad (step_verdicts h) = true -> seq_verdict (step_verdicts h) = bad_case.
+Proof. intros B. unfold seq_verdict. now rewrite B. Qed.
+(* the finding class of a sequence is granted only when every failing step is itself in the class and all steps agree with the int64 model *)
+Lemma sequence_class (vs : list verdict) : v_class (seq_verdict vs) = "int64_overflow" ->
+  forallb v_corr vs = true /\ forall v, In v vs -> v_prop v = true \/ v_class v = "int64_overflow".
+Proof.
+  unfold seq_verdict. destruct (existsb is_bad vs); [discriminate|]. unfold mkv. cbn [v_class].
+  destruct (forallb v_corr vs); cbn [andb]; [|discriminate]. destruct (negb (forallb v_prop vs)); cbn [andb]; [|discriminate].
+  destruct (forallb _ vs) eqn:X; [|discriminate]. intros _. split; [reflexivity|]. intros v Hv.
+  rewrite forallb_forall in X. specialize (X v Hv). apply orb_true_iff in X. destruct X as [X|X]; [now left|right; now apply String.eqb_eq].
+Qed.
 
 Lemma check_conv_bad_zoom s i t r : zooms_okb s t = false -> check_conv s i t r = match r with Err => true | Ok _ => false end.
 Proof. intros H. destruct r as [[mn mx]|]; cbn [check_conv]; rewrite H; reflexivity. Qed.
